@@ -1,10 +1,15 @@
 import DaskModel.DriverLib
 import DaskModel.Model.Chunks
 import DaskModel.Model.ChunksPlanner
+import DaskModel.Model.ChunksAuto
 import DaskModel.Model.Creation
 import DaskModel.Model.Structural
 import DaskModel.Model.ShufflePlan
+import DaskModel.Model.ReshapeRechunk
 import DaskModel.Model.Counting
+import DaskModel.Model.CoarsenAlign
+import DaskModel.Model.HistogramDD
+import DaskModel.Model.RavelIndex
 import DaskModel.Generated.ChunkTolerance
 open Dask
 open Dask.Chunks
@@ -178,6 +183,55 @@ def hRechunkLocate : Handler := handler fun args =>
           | none => .sym "none"))))])
   | _ => none
 
+/-! ### C23 `auto_chunks` (floats observed by the harness, passed as exact fractions) -/
+
+def encSpec : Spec → SExp
+  | .int i => .int i
+  | .flt i => .list [.sym "f", .int i]
+  | .none => .sym "none"
+  | .auto => .sym "auto"
+  | .bytes n => .list [.sym "bytes", .int n]
+  | .tup t => .list (.sym "t" :: t.map SExp.int)
+
+def decFrac : SExp → Option Frac
+  | .list [n, d] => do pure ⟨← n.toNat?, ← d.toNat?⟩
+  | _ => none
+
+/-- `(auto_chunks (spec…) (shape…) itemsize prev ((n d)…) reduce ((pn pd mn md)…) (flag…))`, `prev` = `none` | `((c…)…)` -/
+def hAutoChunks : Handler := handler fun args =>
+  match args with
+  | [chunks, shape, isz, prev, sizes, reduce, visits, flags] => do
+    let chunks ← (← chunks.toList?).mapM decSpec
+    let shape ← shape.toNats?
+    let isz ← isz.toNat?
+    let prev ← match prev with
+      | .sym "none" => some none
+      | p => do pure (some (← p.toNatss?))
+    let sizes ← (← sizes.toList?).mapM decFrac
+    let reduce ← reduce.toBool?
+    let visits ← (← visits.toList?).mapM (fun e => match e with
+      | .list [a, b, c, d] => do pure (AVisit.mk ⟨← a.toNat?, ← b.toNat?⟩ ⟨← c.toNat?, ← d.toNat?⟩)
+      | _ => none)
+    let flags ← (← flags.toList?).mapM SExp.toBool?
+    match autoChunks chunks shape isz prev ⟨sizes, reduce, visits, flags⟩ with
+    | .ok r => pure (.list (.sym "some" :: r.map encSpec))
+    | .error .raised => pure (.list [.sym "raised"])
+    | .error .oracle => pure (.list [.sym "oracle"])
+  | _ => none
+
+/-- `(auto_sound limit (spec…) (shape…) itemsize ((n d)…))` ↦ `(sound fits)`: are the observed roots sound, does one
+    element fit next to the explicit dimensions (the hypotheses of `auto_noprev_within_limit`) -/
+def hAutoSound : Handler := handler fun args =>
+  match args with
+  | [limit, chunks, shape, isz, sizes] => do
+    let limit ← limit.toNat?
+    let chunks ← (← chunks.toList?).mapM decSpec
+    let shape ← shape.toNats?
+    let isz ← isz.toNat?
+    let sizes ← (← sizes.toList?).mapM decFrac
+    pure (.list [SExp.ofBool (sizesSoundB limit isz shape chunks sizes), SExp.ofBool (decide (isz * largestBlockSpec chunks ≤ limit))])
+  | _ => none
+
 /-! ### C34 creation -/
 
 def encABlock (b : ABlock) : SExp := .list [.int b.start, .int b.stop, .int b.len]
@@ -338,6 +392,44 @@ def hTakePlan : Handler := handler fun args =>
     | .error e => pure (encShErr e)
   | _ => none
 
+def encRErr : Dask.Reshape.RErr → SExp
+  | .notImpl => .list [.sym "raised", .sym "NotImplementedError"]
+  | .index => .list [.sym "raised", .sym "IndexError"]
+  | .other => .list [.sym "raised", .sym "other"]
+
+def encOptChunks (l : List (Option (List Nat))) : SExp :=
+  .list (l.map (fun c => match c with | some c => SExp.ofNats c | none => .sym "none"))
+
+/-- `(reshape_rechunk (inshape…) (outshape…) ((inchunks…)…))` ↦ `(ok (ri…) (ro…) ((a b)…) groupsOK)` | `(raised E)` -/
+def hReshapeRechunk : Handler := handler fun args =>
+  match args with
+  | [ishape, oshape, ichunks] => do
+    let ishape ← ishape.toNats?
+    let oshape ← oshape.toNats?
+    let ichunks ← ichunks.toNatss?
+    match Dask.Reshape.reshapeRechunk ishape oshape ichunks with
+    | .error e => pure (encRErr e)
+    | .ok (ri, ro, groups) =>
+      let ok := Dask.Reshape.groupsOK (ri.map (·.getD [])) (ro.map (·.getD [])) groups && ri.all Option.isSome && ro.all Option.isSome
+      pure (.list [.sym "ok", encOptChunks ri, encOptChunks ro, .list (groups.map (fun g => SExp.ofNats [g.1, g.2])), SExp.ofBool ok])
+  | _ => none
+
+/-- `(reshape_check ((ri…)…) ((ro…)…) ((a b)…))` ↦ `groupsOK` on chunks that came from the real `reshape_rechunk` -/
+def hReshapeCheck : Handler := handler fun args =>
+  match args with
+  | [ri, ro, groups] => do
+    let ri ← ri.toNatss?
+    let ro ← ro.toNatss?
+    let groups ← (← groups.toNatss?).mapM (fun g => match g with | [a, b] => some (a, b) | _ => none)
+    pure (SExp.ofBool (Dask.Reshape.groupsOK ri ro groups))
+  | _ => none
+
+/-- `(blocks_flat ((chunks…)…) (flat…))` ↦ the C-order data of every block, blocks in product order -/
+def hBlocksFlat : Handler := handler fun args =>
+  match args with
+  | [dims, flat] => do pure (encIntss (Dask.Reshape.blocksFlat 1 (← dims.toNatss?) (← flat.toInts?)))
+  | _ => none
+
 
 
 /-! ### C27 counting -/
@@ -425,6 +517,125 @@ def hCoarsen : Handler := handler fun args =>
     pure (.list [SExp.ofNats (coarsenChunked Chunks.sum d bs), SExp.ofNats (coarsenBlock Chunks.sum d bs.flatten)])
   | _ => none
 
+def c27Raised : SExp := .list [.sym "raised"]
+def c27OkNats : Option (List Nat) → SExp
+  | some r => .list [.sym "ok", SExp.ofNats r]
+  | none => c27Raised
+def c27Natsss? (e : SExp) : Option (List (List (List Nat))) := do (← e.toList?).mapM SExp.toNatss?
+def c27Order? : SExp → Option Counting.Order
+  | .sym "C" => some .C
+  | .sym "F" => some .F
+  | _ => none
+def c27Mode? : SExp → Option Counting.Mode
+  | .sym "raise" => some .raise
+  | .sym "wrap" => some .wrap
+  | .sym "clip" => some .clip
+  | _ => none
+
+/-- `(aligned_coarsen ((chunks…)…) m)` ↦ one `(ok (…))` | `(raised)` per chunk tuple -/
+def hAlignedCoarsen : Handler := handler fun args =>
+  match args with
+  | [css, m] => do
+    let css ← css.toNatss?
+    let m ← m.toNat?
+    pure (.list (css.map (fun cs => c27OkNats (alignedCoarsenChunks cs m))))
+  | _ => none
+
+/-- `(da_coarsen trim d (chunks…) (xs…))` ↦ `(ok ((block…)…) (declared chunks…) (coarsened whole…))` | `(raised)` -/
+def hDaCoarsen : Handler := handler fun args =>
+  match args with
+  | [t, d, cs, xs] => do
+    let t ← t.toBool?
+    let d ← d.toNat?
+    let cs ← cs.toNats?
+    let xs ← xs.toNats?
+    match daCoarsen Chunks.sum t d cs xs, alignedCoarsenChunks cs d with
+    | some blocks, some al => pure (.list [.sym "ok", SExp.ofNatss blocks, SExp.ofNats (coarsenDeclaredChunks d al),
+        SExp.ofNats (coarsenBlock Chunks.sum d xs)])
+    | _, _ => pure c27Raised
+  | _ => none
+
+/-- `(histdd ((edges…)…) (((row…)…)…))` ↦ `(merged whole)` -/
+def hHistdd : Handler := handler fun args =>
+  match args with
+  | [e, bs] => do
+    let e ← e.toNatss?
+    let bs ← c27Natsss? bs
+    pure (.list [SExp.ofNats (histddMerge e bs), SExp.ofNats (histddBlock e bs.flatten)])
+  | _ => none
+
+/-- `(hist2d (ex…) (ey…) ((xblock…)…) ((yblock…)…))` ↦ `(ok merged whole)` | `(raised)` -/
+def hHist2d : Handler := handler fun args =>
+  match args with
+  | [ex, ey, xb, yb] => do
+    let ex ← ex.toNats?
+    let ey ← ey.toNats?
+    let xb ← xb.toNatss?
+    let yb ← yb.toNatss?
+    match histogram2d ex ey xb yb with
+    | some r => pure (.list [.sym "ok", SExp.ofNats r, SExp.ofNats (histddBlock [ex, ey] (zipRows xb.flatten yb.flatten))])
+    | none => pure c27Raised
+  | _ => none
+
+/-- `(digitize right (bins…) ((block…)…))` ↦ `(ok ((…)…))` | `(raised)` -/
+def hDigitize : Handler := handler fun args =>
+  match args with
+  | [r, bins, bs] => do
+    match daDigitize (← r.toBool?) (← bins.toNats?) (← bs.toNatss?) with
+    | some r => pure (.list [.sym "ok", SExp.ofNatss r])
+    | none => pure c27Raised
+  | _ => none
+
+/-- `(compress (cs…) (cond as 0/1…) (xs…))` ↦ `(ok ((block…)…) (whole…))` | `(raised)` -/
+def hCompress : Handler := handler fun args =>
+  match args with
+  | [cs, cond, xs] => do
+    let cs ← cs.toNats?
+    let cond := (← cond.toNats?).map (· != 0)
+    let xs ← xs.toInts?
+    match compressChunked cs cond xs, compress cond xs with
+    | some bs, some w => pure (.list [.sym "ok", .list (bs.map SExp.ofInts), SExp.ofInts w])
+    | _, _ => pure c27Raised
+  | _ => none
+
+/-- `(unravel order (shape…) ((block…)…))` ↦ `(ok (((coords…)…)…))` | `(raised)` -/
+def hUnravel : Handler := handler fun args =>
+  match args with
+  | [o, shape, bs] => do
+    match daUnravel (← c27Order? o) (← shape.toNats?) (← bs.toNatss?) with
+    | some r => pure (.list [.sym "ok", .list (r.map SExp.ofNatss)])
+    | none => pure c27Raised
+  | _ => none
+
+/-- `(ravel order mode (dims…) (((idx…)…)…))` ↦ `(ok ((…)…))` | `(raised)` -/
+def hRavel : Handler := handler fun args =>
+  match args with
+  | [o, m, dims, bs] => do
+    let bs ← (← bs.toList?).mapM SExp.toIntss?
+    match daRavelMulti (← c27Order? o) (← c27Mode? m) (← dims.toNats?) bs with
+    | some r => pure (.list [.sym "ok", SExp.ofNatss r])
+    | none => pure c27Raised
+  | _ => none
+
+/-- `(argwhere (shape…) (xs…) k)` ↦ `(rows flatnonzero column-k)` -/
+def hArgwhere : Handler := handler fun args =>
+  match args with
+  | [shape, xs, k] => do
+    let shape ← shape.toNats?
+    let xs ← xs.toNats?
+    pure (.list [SExp.ofNatss (argwhere shape xs), SExp.ofNats (flatnonzero xs), SExp.ofNats (nonzeroCol shape xs (← k.toNat?))])
+  | _ => none
+
+/-- `(bincount_tree (((block…)…)…) minlength)` ↦ `(two-level whole)` -/
+def hBincountTree : Handler := handler fun args =>
+  match args with
+  | [gs, m] => do
+    let gs ← c27Natsss? gs
+    let m ← m.toNat?
+    pure (.list [SExp.ofNats (bincountAgg (gs.map (fun g => bincountAgg (g.map (fun b => bincount b m))))),
+                 SExp.ofNats (bincount gs.flatten.flatten m)])
+  | _ => none
+
 
 
 /-- `(shuffle (old…) ((group…)…) limit (xs…))` ↦ `((new chunk takers…) (values…))` with the extracted tolerance -/
@@ -454,14 +665,18 @@ def table : List (String × Handler) := [
   ("shuffle", hShuffle), ("diagonal", hDiagonal),
   ("searchsorted", hSearchsorted), ("bincount_w", hBincountW), ("unique_inverse", hUniqueInverse), ("bincount", hBincount), ("histogram", hHistogram), ("unique", hUnique),
   ("unique_internal", hUniqueInternal), ("nonzero", hNonzero), ("coarsen_sum", hCoarsen),
+  ("aligned_coarsen", hAlignedCoarsen), ("da_coarsen", hDaCoarsen), ("histdd", hHistdd), ("hist2d", hHist2d),
+  ("digitize", hDigitize), ("compress", hCompress), ("unravel", hUnravel), ("ravel", hRavel), ("argwhere", hArgwhere),
+  ("bincount_tree", hBincountTree),
   ("concat_plan", hConcatPlan), ("pad", hPad), ("pad_chunks", hPadChunks), ("roll", hRoll),
   ("expand_tuple", hExpandTuple), ("contract_tuple", hContractTuple), ("lower_dim", hLowerDim),
   ("shuffle_plan", hShufflePlan), ("take_plan", hTakePlan),
+  ("reshape_rechunk", hReshapeRechunk), ("reshape_check", hReshapeCheck), ("blocks_flat", hBlocksFlat),
   ("arange", hArange), ("linspace", hLinspace), ("eye", hEye), ("diag", hDiag),
   ("normalize", hNormalize), ("blockdims", hBlockdims), ("intersect1d", hIntersect),
   ("old_to_new", hOldToNew), ("rechunk1d", hRechunk1d), ("divide_to_width", hDivide),
   ("merge_to_number", hMergeNum), ("graph_size", hGraphSize),
   ("merge_full", hMergeFull), ("find_split", hFindSplit), ("find_merge", hFindMerge), ("plan", hPlan),
-  ("rechunk_locate", hRechunkLocate)]
+  ("rechunk_locate", hRechunkLocate), ("auto_chunks", hAutoChunks), ("auto_sound", hAutoSound)]
 
 def main : IO Unit := runDriver table
